@@ -28,6 +28,8 @@ struct Model {
     unknown: Option<String>,
     /// whitespace padding appended inside the document to reach this raw length
     pad_to: Option<usize>,
+    /// where and with what the document is padded (see `render`)
+    pad_kind: u8,
     tag: &'static str,
 }
 
@@ -88,14 +90,26 @@ impl Model {
             }
         }
         let mut doc = format!("{{{}", fields.join(","));
-        if let Some(p) = self.pad_to {
-            let cur = doc.len() + 1;
-            if p > cur {
-                doc.extend(std::iter::repeat(' ').take(p - cur));
-            }
+        let Some(p) = self.pad_to else {
+            doc.push('}');
+            return doc;
+        };
+        let cur = doc.len() + 1;
+        let need = p.saturating_sub(cur);
+        let ws = |n: usize, set: &[char]| -> String { (0..n).map(|i| set[i % set.len()]).collect() };
+        match self.pad_kind {
+            // 1: whitespace before the document, 2: after it, 6: mixed JSON whitespace inside
+            1 => format!("{}{}}}", ws(need, &[' ', '\n']), doc),
+            2 => format!("{}}}{}", doc, ws(need, &[' ', '\n', '\t'])),
+            6 => format!("{}{}}}", doc, ws(need, &['\t', '\n', '\r', ' '])),
+            // 3: leading byte-order marks (3 bytes each; not JSON, but a tolerant reader may strip them
+            //    *before* measuring), 4: one byte-order mark, the rest inside
+            3 => format!("{}{}{}}}", "\u{feff}".repeat(need / 3), ws(need % 3, &[' ']), doc),
+            4 if need >= 3 => format!("\u{feff}{}{}}}", doc, ws(need - 3, &[' '])),
+            // 5: one ignored extra field carrying the padding
+            5 if need >= 9 && !fields.is_empty() => format!("{},\"pad\":\"{}\"}}", doc, "x".repeat(need - 9)),
+            _ => format!("{}{}}}", doc, ws(need, &[' '])),
         }
-        doc.push('}');
-        doc
     }
 }
 
@@ -143,6 +157,7 @@ fn base_model(rng: &mut Rng) -> Model {
         order,
         unknown,
         pad_to: None,
+        pad_kind: 0,
         tag: "small",
     }
 }
@@ -199,6 +214,7 @@ fn gen_model(rng: &mut Rng, heavy: bool) -> Model {
         _ => {
             // valid and within every field cap, padded with whitespace around 8 MiB
             m.pad_to = Some(*rng.pick(&[MAX_DOC - 1, MAX_DOC, MAX_DOC + 1, MAX_DOC + 2]));
+            m.pad_kind = rng.below(7) as u8;
             m.tag = "raw-cap";
         }
     }
@@ -311,7 +327,7 @@ pub fn run(ctx: &Ctx) {
     ctx.set_rule(&format!(
         "grammar-based documents rendered from a model: the four fields in any order, optional unknown fields (nested objects, deep arrays, escapes, surrogate pairs), integers at u64 edges; \
          {} small documents (clean, or one mutation: truncation, byte replace/insert/delete, duplicated field, wrong-typed field, lone surrogate) and {} cap-focused documents: state_root of 63/64/65/66 bytes plain, \\u00XX-escaped (raw and decoded lengths differ) and multi-byte; \
-         storage_proof with 1023/1024/1025 nodes, one node of 2^20-1/2^20/2^20+1, totals 2^20-1/2^20/2^20+1 spread over 2..1024 nodes; indices 1023/1024/1025; valid documents padded with whitespace to 8 MiB-1/8 MiB/8 MiB+1. \
+         storage_proof with 1023/1024/1025 nodes, one node of 2^20-1/2^20/2^20+1, totals 2^20-1/2^20/2^20+1 spread over 2..1024 nodes; indices 1023/1024/1025; valid documents padded to 8 MiB-1 .. 8 MiB+4 with whitespace inside / before / after the document, mixed JSON whitespace, leading byte-order marks, or one ignored extra field. \
          Oracle (from the model): never panics; raw length > 8 MiB => Err; any cap exceeded => Err; Ok(d) => d.validate() Ok and d equals the model. Control: a run in which no clean in-cap document is accepted exits 2. \
          Non-trivial: a document within +-1 of some cap (cap-focused classes); distinct by document fingerprint.",
         n_small, n_heavy));
@@ -342,7 +358,8 @@ pub fn run(ctx: &Ctx) {
             let _ = want;
             if c % 3 == 0 {
                 m = base_model(&mut rng);
-                m.pad_to = Some(*rng.pick(&[MAX_DOC - 1, MAX_DOC, MAX_DOC + 1, MAX_DOC + 2]));
+                m.pad_to = Some(*rng.pick(&[MAX_DOC - 1, MAX_DOC, MAX_DOC + 1, MAX_DOC + 2, MAX_DOC + 3, MAX_DOC + 4]));
+                m.pad_kind = rng.below(7) as u8;
                 m.tag = "raw-cap";
             }
             let doc = m.render();
